@@ -248,7 +248,7 @@ def setup_parse_response(u):
 
 c = contract(CLIENT, "BaseClient.parse_response", props=["C06"])
 c.setup = setup_parse_response
-c.opts = {"feas_timeout_ms": 400, "solve_budget_s": 150, "solve_par": 10}
+c.opts = {"feas_timeout_ms": 400, "solve_budget_s": 400, "solve_par": 10}
 c.assumptions.append("T-str: rstrip(a ++ b) == (rstrip(a) if rstrip(b) == '' else a ++ rstrip(b)); rstrip('-') == '-'; rstrip(' ') == ''; rstrip(d) == d for digit strings; isdigit(s) implies the first and last characters of s are digits")
 c.uses = [(CLIENT, "BaseClient.parse_line#summary")]
 c.raises_("ConnectionResetError")
